@@ -4,6 +4,7 @@ import (
 	"context"
 	"fmt"
 	"net"
+	"net/http"
 	"sync"
 	"sync/atomic"
 	"time"
@@ -302,12 +303,20 @@ func c16ReconnectCases() []c16Reconnect {
 
 type c16Mixed struct {
 	Kinds []string `json:"token_kinds"` // connect order: exp3 | noexp | far
+	// Tenant: the upstreams belong to a tenant (x-piko-tenant-id) and their
+	// tokens are verified with the tenant's key
+	Tenant bool `json:"tenant,omitempty"`
 }
+
+const c16TenantSecret = "tenant-one-secret-bbbbbbbbbbbbbbbbbbbb"
 
 func runC16Mixed(c c16Mixed) (sig, msg string) {
 	nd, err := e4.StartNode(nil, func(cf *config.Config) {
 		ac := auth.Config{HMACSecretKey: string(e4.Keys().HMAC)}
 		cf.Upstream.Auth, cf.Proxy.Auth = ac, ac
+		if c.Tenant {
+			cf.Upstream.Tenants = []config.TenantConfig{{ID: "t1", Auth: auth.Config{HMACSecretKey: c16TenantSecret}}}
+		}
 	})
 	if err != nil {
 		evid.Fatal("start node: %v", err)
@@ -316,6 +325,9 @@ func runC16Mixed(c c16Mixed) (sig, msg string) {
 	desc := fmt.Sprintf("%+v", c)
 	tok := func(kind string) string {
 		d := e4.TokenDesc{Alg: "HS256", Key: "configured", Tamper: "none", Exp: "future", Nbf: "absent", Aud: "absent", Iss: "absent"}
+		if c.Tenant {
+			d.Secret = c16TenantSecret
+		}
 		switch kind {
 		case "exp3":
 			d.ExpIn = 3
@@ -333,7 +345,12 @@ func runC16Mixed(c c16Mixed) (sig, msg string) {
 	stay := 0
 	var lastExp time.Time
 	for i, k := range c.Kinds {
-		u, err := dialRaw(nd.UpstreamAddr(), "e1", fmt.Sprintf("u%d-%s", i, k), tok(k))
+		h := http.Header{}
+		h.Set("Authorization", "Bearer "+tok(k))
+		if c.Tenant {
+			h.Set("x-piko-tenant-id", "t1")
+		}
+		u, err := dialRawHdr(nd.UpstreamAddr(), "e1", fmt.Sprintf("u%d-%s", i, k), h, nil)
 		if err != nil {
 			return "connect-failed", desc + ": " + err.Error()
 		}
@@ -372,7 +389,9 @@ func runC16Mixed(c c16Mixed) (sig, msg string) {
 		return "registration-differs-from-connected", fmt.Sprintf("%s: %d upstreams hold unexpired tokens, node has %v and %d sessions", desc, stay, nd.State().LocalNode().Endpoints, nd.Srv.VUpstreamServer().VOpenSessions())
 	}
 	if stay > 0 {
-		r := e4.DoHTTP(nd.ProxyAddr(), e4.Addressing{Mode: "header", Endpoint: "e1", Token: "Bearer " + tok("noexp"), TokenHdr: "Authorization"})
+		// (the proxy port verifies with the default key, also for a tenant's endpoint)
+		pt := e4.TokenDesc{Alg: "HS256", Key: "configured", Tamper: "none", Exp: "absent", Nbf: "absent", Aud: "absent", Iss: "absent"}
+		r := e4.DoHTTP(nd.ProxyAddr(), e4.Addressing{Mode: "header", Endpoint: "e1", Token: "Bearer " + pt.Mint(), TokenHdr: "Authorization"})
 		if r.Status != 200 {
 			return "remaining-upstream-unreachable", fmt.Sprintf("%s: request with a token that never expires -> %s", desc, r)
 		}
@@ -395,7 +414,10 @@ func c16MixedCases(full bool) []c16Mixed {
 				}
 			}
 			if e > 0 && o > 0 {
-				out = append(out, c16Mixed{append([]string(nil), cur...)})
+				out = append(out, c16Mixed{Kinds: append([]string(nil), cur...)})
+				if n == 2 || full {
+					out = append(out, c16Mixed{Kinds: append([]string(nil), cur...), Tenant: true})
+				}
 			}
 			return
 		}
